@@ -128,3 +128,11 @@ def D32() -> bool:
 
 
 WITNESS.update({k: v for k, v in list(globals().items()) if k in ("D22", "D26", "D27", "D29", "D30", "D32")})
+
+
+def D14() -> bool:
+    from tealer.teal.instructions.parse_instruction import parse_line
+    return parse_line("frame_bury 0").stack_push_size != 0
+
+
+WITNESS["D14"] = D14
